@@ -136,19 +136,28 @@ static struct meter metered_load(const unsigned char *in, long n, const char *pa
 		clock_gettime(CLOCK_PROCESS_CPUTIME_ID, &ts);
 		t0 = ts.tv_sec + ts.tv_nsec * 1e-9;
 	}
-	alarm(12);
+	/* each entry point (test + load) has its own 12 s wall budget, and the CPU figure judged against the
+	 * limit is the largest of the three: the limit is stated per test/load of one input */
+	m.cpu = 0;
+#define GROUP_BEGIN() do { struct timespec ts_; clock_gettime(CLOCK_PROCESS_CPUTIME_ID, &ts_); \
+		t0 = ts_.tv_sec + ts_.tv_nsec * 1e-9; alarm(12); } while (0)
+#define GROUP_END() do { struct timespec ts_; double d_; alarm(0); clock_gettime(CLOCK_PROCESS_CPUTIME_ID, &ts_); \
+		d_ = ts_.tv_sec + ts_.tv_nsec * 1e-9 - t0; if (d_ > m.cpu) m.cpu = d_; } while (0)
+	GROUP_BEGIN();
 	xmp_test_module_from_memory(exact, n, &ti);
 	c = xmp_create_context();
 	m.ret = xmp_load_module_from_memory(c, exact, n);
 	if (m.ret == 0)
 		xmp_release_module(c);
 	xmp_free_context(c);
+	GROUP_END();
 	m.fret = -99;
 	if (n > 0) {
 		/* the same through a FILE handle: loaders and format tests that fetch data on request (no underlying memory) */
 		FILE *fp = fmemopen(exact, (size_t)n, "rb");
 		if (fp) {
 			int r2;
+			GROUP_BEGIN();
 			xmp_test_module_from_file(fp, &ti);
 			rewind(fp);
 			c = xmp_create_context();
@@ -157,24 +166,21 @@ static struct meter metered_load(const unsigned char *in, long n, const char *pa
 			if (r2 == 0)
 				xmp_release_module(c);
 			xmp_free_context(c);
+			GROUP_END();
 			fclose(fp);
 		}
 	}
 	m.pret = -99;
 	if (path) {
 		/* and by path: the only load entry point that runs the depackers */
+		GROUP_BEGIN();
 		xmp_test_module(path, &ti);
 		c = xmp_create_context();
 		m.pret = xmp_load_module(c, path);
 		if (m.pret == 0)
 			xmp_release_module(c);
 		xmp_free_context(c);
-	}
-	alarm(0);
-	{
-		struct timespec ts;
-		clock_gettime(CLOCK_PROCESS_CPUTIME_ID, &ts);
-		m.cpu = ts.tv_sec + ts.tv_nsec * 1e-9 - t0;
+		GROUP_END();
 	}
 	m.peak = peak_bytes - base;
 	m.held = live_bytes > base ? live_bytes - base : 0;
